@@ -2,8 +2,8 @@ package props
 
 import (
 	"encoding/hex"
-	"fmt"
 	"encoding/json"
+	"fmt"
 	"sync"
 
 	"verif/internal/sup"
